@@ -116,3 +116,157 @@ theorem drawN?_isSome {f : Rng → Option (β × Rng)} {k : Nat} {g : Rng}
     exact this
 
 end Cv.Rng
+
+/-! ### Lemire's draw returns the output of the FIRST accepted word of the stream -/
+namespace Cv.Rng
+
+/-- The next raw word of the generator at state `g` (`alea::u64()`), and the state after it.  Irreducible so that the
+elaborator never compares `g` with `step g` by structure eta (which would unfold 64-bit literal arithmetic). -/
+@[irreducible] def nextWord (g : Rng) : UInt64 := (g.u64).1
+@[irreducible] def step (g : Rng) : Rng := (g.u64).2
+
+theorem u64_eq (g : Rng) : g.u64 = (nextWord g, step g) := by unfold nextWord step; rfl
+
+/-- Generator state after `k` raw draws from `g`. -/
+def nthState (g : Rng) : Nat → Rng
+  | 0 => g
+  | k + 1 => nthState (step g) k
+
+/-- The raw 64-bit word at offset `k` of the stream that starts at state `g` (offset 0 = the next word). -/
+def word (g : Rng) (k : Nat) : UInt64 := nextWord (nthState g k)
+
+theorem nthState_succ (g : Rng) (k : Nat) : nthState g (k + 1) = nthState (step g) k := nthState.eq_2 g k
+theorem nthState_zero (g : Rng) : nthState g 0 = g := nthState.eq_1 g
+theorem nthState_one (g : Rng) : nthState g (0 + 1) = step g := (nthState_succ g 0).trans (nthState_zero _)
+theorem word_succ (g : Rng) (k : Nat) : word g (k + 1) = word (step g) k := congrArg nextWord (nthState_succ g k)
+theorem word_zero (g : Rng) : word g 0 = nextWord g := congrArg nextWord (nthState_zero g)
+
+theorem lemireLoop_succ (m t : UInt64) (f : Nat) (g : Rng) :
+    lemireLoop m t (f + 1) g =
+      if nextWord g * m < t then lemireLoop m t f (step g) else some (mulHi (nextWord g) m, step g) := by
+  simp only [lemireLoop, u64_eq]
+
+theorem u64LessThan_unfold (fuel : Nat) (m : UInt64) (g : Rng) :
+    u64LessThan fuel m g =
+      if nextWord g * m < m then
+        if nextWord g * m < lemireT m then lemireLoop m (lemireT m) fuel (step g)
+        else some (mulHi (nextWord g) m, step g)
+      else some (mulHi (nextWord g) m, step g) := by
+  simp only [u64LessThan, u64_eq]
+  rfl
+
+theorem lemireT_zero {m : UInt64} (hm0 : m.toNat = 0) : (lemireT m).toNat = 0 := by
+  unfold lemireT; rw [UInt64.toNat_mod, hm0, Nat.mod_zero, UInt64.toNat_sub, hm0]; rfl
+
+/-- a word whose low product is `≥ m` is accepted (`2^64 mod m < m`). -/
+theorem accept_of_not_lt (r m : UInt64) (hr : ¬ (r * m < m)) : ¬ (r * m < lemireT m) := by
+  intro hlt
+  apply hr
+  rw [UInt64.lt_iff_toNat_lt] at hlt ⊢
+  by_cases hm : 0 < m.toNat
+  · exact Nat.lt_trans hlt (lemireT_lt m hm)
+  · have := lemireT_zero (m := m) (by omega); omega
+
+theorem lt_of_reject (r m : UInt64) (hr : r * m < lemireT m) : r * m < m := by
+  rw [UInt64.lt_iff_toNat_lt] at hr ⊢
+  by_cases hm : 0 < m.toNat
+  · exact Nat.lt_trans hr (lemireT_lt m hm)
+  · have := lemireT_zero (m := m) (by omega); omega
+
+theorem lemireLoop_first {m t : UInt64} {fuel : Nat} {g g' : Rng} {v : UInt64}
+    (h : lemireLoop m t fuel g = some (v, g')) :
+    ∃ k, k < fuel ∧ (∀ i, i < k → word g i * m < t) ∧ ¬ (word g k * m < t) ∧
+      v = mulHi (word g k) m ∧ g' = nthState g (k + 1) := by
+  induction fuel generalizing g with
+  | zero => simp [lemireLoop] at h
+  | succ f ih =>
+    rw [lemireLoop_succ] at h
+    split at h
+    · rename_i hr
+      obtain ⟨k, hk, hrej, hacc, hv, hg⟩ := ih h
+      refine ⟨k + 1, by omega, ?_, ?_, ?_, ?_⟩
+      · intro i hi
+        cases i with
+        | zero => rw [word_zero]; exact hr
+        | succ i => rw [word_succ]; exact hrej i (by omega)
+      · rw [word_succ]; exact hacc
+      · rw [word_succ]; exact hv
+      · rw [nthState_succ]; exact hg
+    · rename_i hr
+      simp only [Option.some.injEq, Prod.mk.injEq] at h
+      refine ⟨0, by omega, fun i hi => absurd hi (Nat.not_lt_zero _), ?_, ?_, ?_⟩
+      · rw [word_zero]; exact hr
+      · rw [word_zero]; exact h.1.symm
+      · rw [nthState_one]; exact h.2.symm
+
+/-- **First accepted word.**  If `u64_less_than(m)` returns `(v, g')` from state `g`, there is an offset `k ≤ fuel` such
+that the words at offsets `0 … k-1` of the stream from `g` are all rejected, the word at offset `k` is accepted
+(`lemireAccept`), `v = mulHi (word k) m`, and exactly `k + 1` words were consumed (`g'` is the state after `k + 1` raw draws). -/
+theorem u64LessThan_first_accepted {fuel : Nat} {m : UInt64} {g g' : Rng} {v : UInt64}
+    (h : u64LessThan fuel m g = some (v, g')) :
+    ∃ k, k ≤ fuel ∧ (∀ i, i < k → ¬ lemireAccept m (word g i)) ∧ lemireAccept m (word g k) ∧
+      v = mulHi (word g k) m ∧ g' = nthState g (k + 1) := by
+  rw [u64LessThan_unfold] at h
+  split at h
+  · split at h
+    · rename_i _ hr
+      obtain ⟨k, hk, hrej, hacc, hv, hg⟩ := lemireLoop_first h
+      refine ⟨k + 1, by omega, ?_, ?_, ?_, ?_⟩
+      · intro i hi
+        cases i with
+        | zero => rw [word_zero]; exact fun hn => hn hr
+        | succ i => rw [word_succ]; exact fun hn => hn (hrej i (by omega))
+      · rw [word_succ]; exact hacc
+      · rw [word_succ]; exact hv
+      · rw [nthState_succ]; exact hg
+    · rename_i _ hr
+      simp only [Option.some.injEq, Prod.mk.injEq] at h
+      refine ⟨0, Nat.zero_le _, fun i hi => absurd hi (Nat.not_lt_zero _), ?_, ?_, ?_⟩
+      · rw [word_zero]; exact hr
+      · rw [word_zero]; exact h.1.symm
+      · rw [nthState_one]; exact h.2.symm
+  · rename_i hr
+    simp only [Option.some.injEq, Prod.mk.injEq] at h
+    refine ⟨0, Nat.zero_le _, fun i hi => absurd hi (Nat.not_lt_zero _), ?_, ?_, ?_⟩
+    · rw [word_zero]; exact accept_of_not_lt _ _ hr
+    · rw [word_zero]; exact h.1.symm
+    · rw [nthState_one]; exact h.2.symm
+
+theorem lemireLoop_of_first {m t : UInt64} {fuel k : Nat} {g : Rng} (hk : k < fuel)
+    (hrej : ∀ i, i < k → word g i * m < t) (hacc : ¬ (word g k * m < t)) :
+    lemireLoop m t fuel g = some (mulHi (word g k) m, nthState g (k + 1)) := by
+  induction k generalizing g fuel with
+  | zero =>
+    obtain ⟨f, rfl⟩ : ∃ f, fuel = f + 1 := ⟨fuel - 1, by omega⟩
+    rw [word_zero] at hacc
+    rw [lemireLoop_succ, if_neg hacc, word_zero, nthState_one]
+  | succ k ih =>
+    obtain ⟨f, rfl⟩ : ∃ f, fuel = f + 1 := ⟨fuel - 1, by omega⟩
+    have h0 := hrej 0 (by omega)
+    rw [word_zero] at h0
+    rw [lemireLoop_succ, if_pos h0, word_succ, nthState_succ]
+    apply ih (g := step g) (by omega)
+    · intro i hi; have := hrej (i + 1) (by omega); rw [word_succ] at this; exact this
+    · rw [word_succ] at hacc; exact hacc
+
+/-- Converse: with enough fuel the draw returns the output of the first accepted word of the stream. -/
+theorem u64LessThan_of_first_accepted {fuel k : Nat} {m : UInt64} {g : Rng} (hk : k ≤ fuel)
+    (hrej : ∀ i, i < k → ¬ lemireAccept m (word g i)) (hacc : lemireAccept m (word g k)) :
+    u64LessThan fuel m g = some (mulHi (word g k) m, nthState g (k + 1)) := by
+  have hrej' : ∀ i, i < k → word g i * m < lemireT m := fun i hi => Classical.not_not.1 (hrej i hi)
+  have hacc' : ¬ (word g k * m < lemireT m) := hacc
+  rw [u64LessThan_unfold]
+  cases k with
+  | zero =>
+    rw [word_zero] at hacc'
+    rw [if_neg hacc', word_zero, nthState_one]
+    split <;> rfl
+  | succ k =>
+    have h0 := hrej' 0 (by omega)
+    rw [word_zero] at h0
+    rw [if_pos (lt_of_reject _ _ h0), if_pos h0, word_succ, nthState_succ]
+    apply lemireLoop_of_first (g := step g) (by omega)
+    · intro i hi; have := hrej' (i + 1) (by omega); rw [word_succ] at this; exact this
+    · rw [word_succ] at hacc'; exact hacc'
+
+end Cv.Rng
